@@ -67,9 +67,10 @@ def seqTick {α} (kind : SeqKind) (items : Nat → Item) (s : SeqSt) (done : Boo
         | .catch, some e => [Act.emit (.error e)]
         | _, _ => [Act.emit .completed])
     | .raise e =>
-      -- concat/catch: `except Exception as ex: observer.on_error(ex)`;
-      -- on_error_resume_next: a raising factory is not caught (C09 defect): nothing further happens here
-      ({ s with pending := false }, match kind with | .oern => [] | _ => [Act.emit (.error e)])
+      -- concat/catch: `next(sources_)` raising (a failing generator / mapper / condition) is caught:
+      -- `except Exception as ex: observer.on_error(ex)`; on_error_resume_next: a raising source factory is
+      -- caught the same way (`try: source = source(state) … except Exception as ex: observer.on_error(ex)`)
+      ({ s with pending := false }, [Act.emit (.error e)])
 
 def seqM {α} (kind : SeqKind) (items : Nat → Item) : Machine SeqSt α α :=
   { handler := seqHandler kind, tick := seqTick kind items }
